@@ -407,6 +407,20 @@ def wl_copies(ctx, idx, rng):
                 ctx.violation("faithful_copy", "like(sample_rate=...) ignored the override", None, {"what": "override"})
             if sig.meta != out.meta or (sig.start_time is None) != (out.start_time is None):
                 ctx.violation("faithful_copy", "like(sample_rate=...) changed other attributes", None, {"what": "override_other"})
+    # an override given explicitly as None is an override (the copy has no start time / no meta), not "keep the reference's"
+    for attr in ("start_time", "meta"):
+        out, exc = ctx.call("faithful_copy", cls.like, sig, where=f"like({attr}=None)", **{attr: None})
+        if exc is None:
+            ctx.count("oracle[like_none_override]")
+            with probes.quiet():
+                got = getattr(out, attr)
+                other = "meta" if attr == "start_time" else "start_time"
+                same_other = (out.meta == sig.meta) if other == "meta" else monitors.same_time(out.start_time, sig.start_time, 0)
+            if got is not None:
+                ctx.violation("faithful_copy", f"like(z, {attr}=None) kept the reference's {attr} ({got!r:.60})", None,
+                              {"what": "none_override_ignored", "attr": attr})
+            if not same_other:
+                ctx.violation("faithful_copy", f"like(z, {attr}=None) changed {other}", None, {"what": "override_other", "attr": attr})
     # pickles
     for name, dumps, loads in (("pickle", pickle.dumps, pickle.loads), ("cloudpickle", cloudpickle.dumps, cloudpickle.loads),
                                ("deepcopy", copy.deepcopy, None), ("copy", copy.copy, None)):
